@@ -103,6 +103,9 @@ MUTANTS = [
      "            source.residual_mean = residual[0]\n",
      "            import time\n            source.residual_mean = "
      "residual[0] + 0 * time.time()\n", "C03-R7"),
+    ("signed integrated-flux error (seed C03c)", "AegeanTools/fitting.py",
+     "    source.err_int_flux = abs(source.int_flux * np.sqrt(sqerr))\n    return source",
+     "    source.err_int_flux = source.int_flux * np.sqrt(sqerr)\n    return source", "C03-R11"),
 ]
 TWINS = [
     ("stride reordered", "AegeanTools/source_finder.py",
@@ -124,6 +127,7 @@ def run(ctx):
     r7(ctx, prog)
     r8(ctx, prog)
     r9(ctx, prog)
+    r11(ctx, prog)
     # ---------------------------------------------------------------- R10
     g = callgraph.build(prog)
     reach = callgraph.reachable(g, [PKG + "." + d for d in DRIVERS])
@@ -518,6 +522,128 @@ def r4(ctx, prog):
     ctx.check("C03-R4", fx, "fix_shape swaps a/b, err_a/err_b and adds 90",
               ok, "a<b must swap the axes and their errors and rotate pa by "
               "90 deg", node=fx.node)
+
+
+SIGNED_FIELDS = {"peak_flux", "int_flux", "dec", "background", "pa",
+                 "residual_mean"}
+NONNEG_CALLS = {"abs", "np.abs", "numpy.abs", "np.fabs", "np.sqrt",
+                "numpy.sqrt", "math.sqrt", "np.hypot", "math.hypot", "gcd",
+                "np.std", "np.nanstd", "np.linalg.norm", "len", "np.exp",
+                "math.exp", "np.square", "sky_sep", "dist_rhumb"}
+
+
+def sign_of(fnode, e, depth=0):
+    """'+'  provably >= 0;  '-1' the documented sentinel;  '?' may be
+    negative (a signed quantity not wrapped in abs());  None unknown"""
+    from .c08 import _resolve_local
+    if depth > 8:
+        return None
+    if isinstance(e, ast.Constant) and isinstance(e.value, (int, float)) \
+            and not isinstance(e.value, bool):
+        return "+" if e.value >= 0 else ("-1" if e.value == -1 else "?")
+    if isinstance(e, ast.UnaryOp) and isinstance(e.op, ast.USub):
+        if isinstance(e.operand, ast.Constant) and e.operand.value == 1:
+            return "-1"
+        inner = sign_of(fnode, e.operand, depth + 1)
+        return "?" if inner in ("+", "?") else None
+    if isinstance(e, ast.Name):
+        if e.id == "ERR_MASK":
+            return "-1"
+        r = _resolve_local(fnode, e)
+        if r is not e:
+            return sign_of(fnode, r, depth + 1)
+        return None
+    if isinstance(e, ast.Attribute):
+        if e.attr == "stderr" or e.attr.startswith("err_"):
+            return "+"            # an uncertainty (or its -1 marker) itself
+        if norm(e) in ("np.nan", "numpy.nan", "np.pi", "math.pi"):
+            return "+"
+        if e.attr in SIGNED_FIELDS:
+            return "?"
+        if e.attr == "value" and isinstance(e.value, ast.Subscript) and \
+                "amp" in norm(e.value.slice):
+            return "?"
+        return None
+    if isinstance(e, ast.Call):
+        fn = norm(e.func)
+        if fn in NONNEG_CALLS or fn.split(".")[-1] in ("gcd", "sky_sep"):
+            return "+"
+        return None
+    if isinstance(e, ast.BinOp):
+        l_, r_ = sign_of(fnode, e.left, depth + 1), \
+            sign_of(fnode, e.right, depth + 1)
+        if isinstance(e.op, (ast.Mult, ast.Div)):
+            if "?" in (l_, r_):
+                return "?"
+            if l_ == "+" and r_ == "+":
+                return "+"
+            return None
+        if isinstance(e.op, ast.Add):
+            if l_ == "+" and r_ == "+":
+                return "+"
+            return "?" if "?" in (l_, r_) else None
+        if isinstance(e.op, ast.Sub):
+            return "?" if (l_ is not None and r_ is not None) else None
+        if isinstance(e.op, ast.Pow):
+            if isinstance(e.right, ast.Constant) and \
+                    isinstance(e.right.value, int) and e.right.value % 2 == 0:
+                return "+"
+            return l_ if l_ == "+" else None
+        return None
+    if isinstance(e, ast.IfExp):
+        a_, b_ = sign_of(fnode, e.body, depth + 1), \
+            sign_of(fnode, e.orelse, depth + 1)
+        if "?" in (a_, b_):
+            return "?"
+        return a_ if a_ == b_ else None
+    if isinstance(e, ast.Subscript):
+        return sign_of(fnode, e.value, depth + 1)
+    return None
+
+
+def r11(ctx, prog):
+    ctx.rule("C03-R11", "sign of the uncertainties: a value stored into an "
+             "err_* field is non-negative by construction (abs, sqrt, hypot, "
+             "a great-circle distance, an lmfit stderr, products of these) "
+             "or the -1 marker; a product with a signed quantity (peak / "
+             "integrated flux, dec, pa) must be wrapped in abs()")
+    n = 0
+    for q, fi in prog.functions.items():
+        if fi.module not in (PKG + ".source_finder", PKG + ".fitting",
+                             PKG + ".cluster"):
+            continue
+        for s in walk_no_nested(fi.node):
+            if not isinstance(s, (ast.Assign, ast.AugAssign)):
+                continue
+            tgs = s.targets if isinstance(s, ast.Assign) else [s.target]
+            flat = []
+            for t in tgs:
+                flat += list(t.elts) if isinstance(t, (ast.Tuple, ast.List)) \
+                    else [t]
+            errt = [t for t in flat if isinstance(t, ast.Attribute) and
+                    t.attr.startswith("err_")]
+            if not errt:
+                continue
+            vals = [s.value]
+            if isinstance(s, ast.Assign) and \
+                    isinstance(s.value, (ast.Tuple, ast.List)) and \
+                    len(tgs) == 1 and isinstance(tgs[0], (ast.Tuple,
+                                                          ast.List)):
+                vals = [v for t, v in zip(tgs[0].elts, s.value.elts)
+                        if t in errt]
+            for v in vals:
+                sg = sign_of(fi.node, v)
+                n += 1
+                if sg is None:
+                    ctx.unknown_site("C03-R11", fi, "sign of %s not derived"
+                                     % norm(s, 60), node=s)
+                    continue
+                ctx.check("C03-R11", fi, "sign of " + norm(s, 70), sg != "?",
+                          "the stored uncertainty takes the sign of a signed "
+                          "quantity (no abs()): for a negative source it is "
+                          "negative -- neither positive nor the -1 marker",
+                          node=s)
+    ctx.floor("C03-R11", n, 20, "stores to err_* fields")
 
 
 def r5(ctx, prog):
